@@ -56,9 +56,9 @@ theorem bindParams_rel (ps : List String) {vs vs' : List Val} (kwn : List String
     ∀ env2, bindParams ps vs kwn kvs env = .ok env2 → ∃ env2', bindParams ps vs' kwn kvs' env' = .ok env2' ∧ EnvLe env2 env2' := by
   intro env2 h
   unfold bindParams at h ⊢
-  by_cases hd : ps.eraseDups.length ≠ ps.length
+  rcases (Bool.eq_false_or_eq_true (distinctS ps)).symm with hd | hd
   · simp [hd] at h
-  · simp only [hd, if_false] at h ⊢
+  · simp only [hd, Bool.not_true, Bool.false_eq_true, if_false] at h ⊢
     cases h1 : bindPos env ps vs with
     | error e => simp [h1, bind, Except.bind] at h
     | ok r1 =>
